@@ -35,6 +35,9 @@ type c28Scenario struct {
 	// FPSid >= 0: the client sends a fingerprinted ClientHello (ClientFingerprintConfiguration) whose session id has
 	// this length; the log must still show what went over the wire
 	FPSid int `json:"fp_sid"`
+	// External > 0: the client is given a ready-made ClientHello (Config.ExternalClientHello) whose SNI names another
+	// host than Config.ServerName; what goes on the wire and what is logged must still agree
+	External int `json:"external,omitempty"`
 	Tape   []int  `json:"tape,omitempty"`
 }
 
@@ -74,6 +77,13 @@ func genC28(seed uint64, tier string) any {
 		sc.Resume = false
 	}
 	sc.FPSid = -1
+	if r.Chance(1, 12) {
+		sc.External = 1 + r.Intn(2)
+		sc.Resume, sc.Decline, sc.CutAt = false, false, 0
+		sc.Client.Cache = false
+		sc.Server.MinVersion, sc.Server.MaxVersion, sc.Server.Suites, sc.Server.KeyKind, sc.Server.KeyKind2, sc.Server.Curves = 0, vTLS12, nil, "rsa", "", nil
+		return sc
+	}
 	if r.Chance(1, 10) {
 		sc.FPSid = []int{0, 1, 8, 16, 31, 32}[r.Intn(6)]
 		sc.Resume, sc.Decline, sc.CutAt = false, false, 0
@@ -216,6 +226,31 @@ func execC28(t *testing.T, scAny any, keepLog bool) *Outcome {
 					&tls.PointFormatExtension{Formats: []uint8{0}}, &tls.SignatureAlgorithmExtension{SignatureAndHashes: []uint16{0x0401, 0x0501, 0x0201}}, &tls.SecureRenegotiationExtension{}},
 			}
 			o.count("probe.fingerprinted_client_hello", 1)
+		}
+		if sc.External > 0 {
+			// a TLS 1.2 ClientHello assembled by the harness (RFC 5246 7.4.1.2 and the extension RFCs)
+			var b []byte
+			b = append(b, 3, 3)
+			b = append(b, run.R.Derive("ext-hello").Bytes(32)...)
+			b = append(b, 0) // empty session id
+			suites := []uint16{0xc02f, 0xc013, 0x009c, 0x002f, 0x0035}
+			b = append(b, 0, byte(2*len(suites)))
+			for _, id := range suites {
+				b = append(b, byte(id>>8), byte(id))
+			}
+			b = append(b, 1, 0)
+			sni := []string{"template.invalid", serverName}[sc.External-1]
+			var ex []byte
+			ex = append(ex, refExt(fpExt{Kind: "sni", Names: []string{sni}}, "")...)
+			ex = append(ex, refExt(fpExt{Kind: "curves", U16: []uint16{29, 23}}, "")...)
+			ex = append(ex, refExt(fpExt{Kind: "points", Bytes: []byte{0}}, "")...)
+			ex = append(ex, refExt(fpExt{Kind: "sigalgs", U16: []uint16{0x0401, 0x0501, 0x0201}}, "")...)
+			ex = append(ex, refExt(fpExt{Kind: "reneg"}, "")...)
+			b = append(b, byte(len(ex)>>8), byte(len(ex)))
+			b = append(b, ex...)
+			ccfg.ExternalClientHello = append([]byte{hsClientHello, byte(len(b) >> 16), byte(len(b) >> 8), byte(len(b))}, b...)
+			ccfg.ForceSuites = true
+			o.count("probe.external_client_hello", 1)
 		}
 		var keylog bytes.Buffer
 		ccfg.KeyLogWriter = &keylog
@@ -473,6 +508,22 @@ func c28Check(sc *c28Scenario, co *connOutcome, keylog []byte, presentedTicket [
 				_, t35 := sh.ext(35)
 				_, t5 := sh.ext(5)
 				_, t23 := sh.ext(23)
+				// the list of extension types, in wire order
+				if lsh.ExtensionIdentifiers != nil || len(sh.Exts) > 0 {
+					var wireIDs []uint16
+					for _, e := range sh.Exts {
+						wireIDs = append(wireIDs, e.Type)
+					}
+					if fmt.Sprint(wireIDs) != fmt.Sprint(lsh.ExtensionIdentifiers) {
+						return Failf("c28.serverhello", "logged list of ServerHello extension types differs from the wire", "log %v wire %v", lsh.ExtensionIdentifiers, wireIDs)
+					}
+					o.count("probe.serverhello_extension_ids_compared", 1)
+				}
+				// (the log sets secure_renegotiation only for a non-empty renegotiated_connection field: a false flag is an
+				// unpopulated part; a true one needs the extension with data on the wire)
+				if d, tff01 := sh.ext(0xff01); lsh.SecureRenegotiation && (!tff01 || len(d) < 2) {
+					return Failf("c28.serverhello", "secure renegotiation logged although the wire carries no renegotiation data", "renegotiation_info present %v (%d bytes)", tff01, len(d))
+				}
 				if lsh.TicketSupported != t35 || lsh.OcspStapling != t5 || lsh.ExtendedMasterSecret != t23 {
 					return Failf("c28.serverhello", "logged ServerHello extension flags differ from the wire", "log ticket=%v ocsp=%v ems=%v wire %v %v %v", lsh.TicketSupported, lsh.OcspStapling, lsh.ExtendedMasterSecret, t35, t5, t23)
 				}
@@ -870,7 +921,7 @@ func init() {
 		Assume: []string{"for a HelloRetryRequest flow the logged ServerHello may be either the HelloRetryRequest or the final ServerHello", "algorithm names are compared by family (rsa/pkcs1v15/rsapss = RSA) and hash name; 'intrinsic' is accepted for RSA-PSS"},
 		FaultKinds: []string{"fault.connection_cut", "probe.clienthello_compared", "probe.serverhello_compared", "probe.certs_compared", "probe.skx_compared", "probe.skx_sigalg_compared", "probe.ckx_compared", "probe.ticket_compared",
 			"probe.clienthello_ticket_logged", "probe.master_secret_vs_keylog", "probe.master_from_premaster", "probe.finished_compared", "probe.resumed_log_checked", "probe.scts_compared", "fault.ticket_declined_by_server",
-			"fault.resumed_by_reference_server_mode_1", "fault.resumed_by_reference_server_mode_2", "fault.resumed_by_reference_server_mode_3", "probe.stub_resume_refused_by_client", "probe.stub_resume_not_started", "probe.fingerprinted_client_hello"},
+			"fault.resumed_by_reference_server_mode_1", "fault.resumed_by_reference_server_mode_2", "fault.resumed_by_reference_server_mode_3", "probe.stub_resume_refused_by_client", "probe.stub_resume_not_started", "probe.fingerprinted_client_hello", "probe.external_client_hello", "probe.serverhello_extension_ids_compared"},
 		NotInjected: "adversarial wire faults are not injected (the log of a corrupted handshake is exercised for panics under C32); only a clean cut of the connection",
 		Gen:         genC28, New: func() any { return &c28Scenario{} }, Exec: execC28, Shrink: shrinkC28,
 		QuickRuns: 8000, ThoroughRuns: 600000,
